@@ -174,6 +174,29 @@ def run_shard(sh, tier, seed):
                             if st2 != "ok" or not torch.equal(a2, attr):
                                 rec.violation("dls:repeated_call_differs", case)
                 rec.observe(sub, S, bs)
+    # call order: A ; B (a differently configured call, incl. a custom rescale rule) ; A again -> identical to the first A
+    def scaled_rule(module, grad_input, grad_output):
+        from tangermeme.deep_lift_shap import _nonlinear
+        return (_nonlinear(module, grad_input, grad_output)[0] * 3.0,)
+    S = 2
+    kwA = dict(n_shuffles=S, device="cpu", batch_size=3, references=R[:, :S])
+    argA = dict(args=(A,)) if sh["use_arg"] else {}
+    argB = dict(args=(A[:2],)) if sh["use_arg"] else {}
+    stA, a1 = call(deep_lift_shap, model, X, **kwA, **argA)
+    others = [dict(n_shuffles=3, device="cpu", references=dinucleotide_shuffle, random_state=5, hypothetical=True),
+              dict(device="cpu", references=R[:2, :S], additional_nonlinear_ops={torch.nn.ReLU: scaled_rule, torch.nn.Tanh: scaled_rule}, warning_threshold=1e9),
+              dict(device="cpu", references=R[:2, :1], raw_outputs=True, batch_size=1)]
+    for oi, kwB in enumerate(others):
+        stB, _ = call(deep_lift_shap, model, X[:2], **kwB, **argB)
+        if stB != "ok":
+            rec.note("intervening call %d raised: %s" % (oi, _))
+        st2, a2 = call(deep_lift_shap, model, X, **kwA, **argA)
+        rec.case(1, 1)
+        rec.count("traces_validated_against_impl")
+        if stA != "ok" or st2 != "ok" or not torch.equal(a1, a2):
+            rec.violation("dls:result_depends_on_earlier_call", dict(fn="deep_lift_shap", model=sk, source=sh["src"], args=sh["use_arg"], seed=seed,
+                          intervening_call=["generated refs + hypothetical", "additional_nonlinear_ops custom rule", "raw outputs, 1 reference"][oi]),
+                          msg="the same call returns a different result after a differently configured call in between")
     rec.count("states", len(states))
     rec.sample(dict(model=sk, source=sh["src"], args=sh["use_arg"], ordered_subsets=len(subsets), n_shuffles=list(Ss), batch_sizes="1..N*S+1", modes=list(modes)))
     return rec.result()
